@@ -200,28 +200,72 @@ theorem hbLoop_step (rh : HookFn) (hrh : HookOK rh) : ∀ (n : Nat) (w : W), Ste
         · exact h
         · exact Step.trans h (ih _)
 
-theorem resetObject_step (rh : HookFn) (hrh : HookOK rh) (w : W) (k : Nat) : Step w (resetObject rh w k) := by
-  unfold resetObject
+theorem resetObjectR_step (rh : HookFn) (hrh : HookOK rh) (w : W) (k : Nat) : Step w (resetObjectR rh w k).1 := by
+  unfold resetObjectR
   simp only []
-  have h : Step w (rh (emit { w with nextReset := fun x => if x = k then w.now + resetDuration / 2 else w.nextReset x }
+  have h : Step w (rh (emit { w with nextReset := fun x => if x = k then w.now + resetDuration / 2 else w.nextReset x,
+                                     refTime := fun x => if x = k then w.now else w.refTime x }
       (.tReset (.obj k))) (.obj k) .reset).1 :=
     by same_then (hrh _ _ _)
   split
   · exact h
   · exact Step.trans h (Same.step ⟨rfl, rfl, rfl, rfl, rfl, rfl, rfl, rfl, rfl, by trx⟩)
 
-theorem sweepResets_step (rh : HookFn) (hrh : HookOK rh) : ∀ (ks : List Nat) (w : W), Step w (sweepResets rh ks w) := by
+theorem resetObject_step (rh : HookFn) (hrh : HookOK rh) (w : W) (k : Nat) : Step w (resetObject rh w k) :=
+  resetObjectR_step rh hrh w k
+
+theorem cleanupObject_step (rh : HookFn) (hrh : HookOK rh) (w : W) (k : Nat) : Step w (cleanupObject rh w k).1 := by
+  unfold cleanupObject
+  simp only []
+  have h : Step w (rh (emit (touch w (.obj k)) (.tCleanup (.obj k))) (.obj k) .cleanup).1 :=
+    Step.trans (Step.trans (touch_same _ _).step (emit_same _ _).step) (hrh _ _ _)
+  split
+  · exact h
+  · split
+    · exact h
+    · exact Step.trans h (Same.step ⟨rfl, rfl, rfl, rfl, rfl, rfl, rfl, rfl, rfl, by trx⟩)
+
+theorem sweepObject_step (rh : HookFn) (hrh : HookOK rh) (w : W) (k : Nat) : Step w (sweepObject rh w k).1 := by
+  unfold sweepObject
+  simp only []
+  have h1 : Step w (if (w.nextReset k < w.now && !w.resetState k) = true then resetObjectR rh w k else (w, false)).1 := by
+    split
+    · exact resetObjectR_step rh hrh w k
+    · exact Step.refl w
+  revert h1
+  generalize (if (w.nextReset k < w.now && !w.resetState k) = true then resetObjectR rh w k else (w, false)) = r
+  intro h1
+  split
+  · exact h1
+  · split
+    · exact h1
+    · split
+      · exact Step.trans h1 (cleanupObject_step rh hrh r.1 k)
+      · exact h1
+
+theorem sweepPass_step (rh : HookFn) (hrh : HookOK rh) : ∀ (ks : List Nat) (w : W), Step w (sweepPass rh ks w).1 := by
   intro ks
   induction ks with
   | nil => intro w; exact Step.refl w
   | cons k ks ih =>
     intro w
-    unfold sweepResets
+    unfold sweepPass
     split
     · exact ih w
     · split
-      · exact Step.trans (resetObject_step rh hrh w k) (ih _)
-      · exact ih w
+      · exact sweepObject_step rh hrh w k
+      · exact Step.trans (sweepObject_step rh hrh w k) (ih _)
+
+theorem sweepResets_step (rh : HookFn) (hrh : HookOK rh) : ∀ (fuel : Nat) (w : W), Step w (sweepResets rh fuel w) := by
+  intro fuel
+  induction fuel with
+  | zero => intro w; exact Step.refl w
+  | succ n ih =>
+    intro w
+    unfold sweepResets
+    split
+    · exact Step.trans (sweepPass_step rh hrh w.objList w) (ih _)
+    · exact sweepPass_step rh hrh w.objList w
 
 theorem sweepCallOuts_step (rh : HookFn) (hrh : HookOK rh) : ∀ (n : Nat) (w : W), Step w (sweepCallOuts rh n w) := by
   intro n
@@ -259,7 +303,7 @@ theorem timerSweeps_step (rh : HookFn) (hrh : HookOK rh) (w : W) : Step w (timer
   have h0 : Step w { w with curHb := none } := Same.step ⟨rfl, rfl, rfl, rfl, rfl, rfl, rfl, rfl, rfl, by trx⟩
   have h1 : Step w (if ({ w with curHb := none } : W).now < ({ w with curHb := none } : W).nextSweep
       then ({ w with curHb := none } : W)
-      else popCtx (sweepResets rh ({ w with curHb := none } : W).objList
+      else popCtx (sweepResets rh (3 * ({ w with curHb := none } : W).objList.length + 3)
         (pushCtx { ({ w with curHb := none } : W) with nextSweep := ({ w with curHb := none } : W).now + sweepPeriod }))) := by
     split
     · exact h0
